@@ -439,6 +439,85 @@ pub fn run(ctx: &Ctx) -> Report {
         poly(&[(0, 1.0), (1, -1.0)]),
     ];
     semiring_laws(&mut acc, "Polynomial<RealSemiring>", &polys, true);
+    // polynomials are objects with histories: the same polynomial reached by editing zero(), by editing
+    // one() (its constant coefficient overwritten), by editing a copy of another polynomial, and by adding
+    // monomials - the laws again over these, and every product / sum against the convolution computed on
+    // the coefficient vectors
+    if !crate::core::disabled("polyhist") {
+        let specs: Vec<Vec<(usize, f64)>> = vec![vec![(1, 1.0)], vec![(0, 1.0), (1, 1.0)], vec![(0, 2.0), (2, 3.0)], vec![(0, 1.0), (1, -1.0)], vec![(0, 3.0)], vec![(0, 1.0), (16, 1.0)]];
+        let via = |c: &[(usize, f64)], h: usize| -> Polynomial<RealSemiring> {
+            let set = |p: &mut Polynomial<RealSemiring>| {
+                let mut len = 0;
+                for k in 0..32 {
+                    p.coefficients[k] = RealSemiring(0.0);
+                }
+                for &(i, v) in c {
+                    p.coefficients[i] = RealSemiring(v);
+                    len = len.max(i + 1);
+                }
+                p.len = len;
+            };
+            match h {
+                0 => poly(c),
+                1 => {
+                    let mut p = Polynomial::<RealSemiring>::one();
+                    set(&mut p);
+                    p
+                }
+                2 => {
+                    let mut p = poly(&[(0, 5.0), (3, 7.0)]);
+                    set(&mut p);
+                    p
+                }
+                _ => {
+                    let mut p = Polynomial::<RealSemiring>::zero();
+                    for &(i, v) in c {
+                        p = p + poly(&[(i, v)]);
+                    }
+                    p
+                }
+            }
+        };
+        let coeffs = |p: &Polynomial<RealSemiring>| -> Vec<f64> { (0..32).map(|k| if k < p.len { p.coefficients[k].0 } else { 0.0 }).collect() };
+        let mut hp: Vec<(Polynomial<RealSemiring>, Vec<f64>, String)> = Vec::new();
+        for c in specs.iter() {
+            let mut want = vec![0.0; 32];
+            for &(i, v) in c.iter() {
+                want[i] = v;
+            }
+            for h in 0..4 {
+                hp.push((via(c, h), want.clone(), format!("{:?} via history {}", c, h)));
+            }
+        }
+        'ph: for (a, ca, na) in hp.iter() {
+            for (b, cb, nb) in hp.iter() {
+                acc.rep.evaluations += 2;
+                let mut conv = vec![0.0; 32];
+                for i in 0..32 {
+                    for j in 0..(32 - i) {
+                        conv[i + j] += ca[i] * cb[j];
+                    }
+                }
+                let sum: Vec<f64> = (0..32).map(|k| ca[k] + cb[k]).collect();
+                match eval2(|| (coeffs(&(*a * *b)), coeffs(&(*a + *b)))) {
+                    Ok((gm, gs)) => {
+                        if gm != conv {
+                            acc.fail("Polynomial<RealSemiring>", "mul-is-convolution", format!("({}) * ({}) has coefficients {:?}, the convolution is {:?}", na, nb, &gm[..6], &conv[..6]));
+                            break 'ph;
+                        }
+                        if gs != sum {
+                            acc.fail("Polynomial<RealSemiring>", "add-is-coefficientwise", format!("({}) + ({}) has coefficients {:?}, expected {:?}", na, nb, &gs[..6], &sum[..6]));
+                            break 'ph;
+                        }
+                    }
+                    Err(p) => {
+                        acc.fail("Polynomial<RealSemiring>", "panic", format!("({}) op ({}) panicked: {}", na, nb, p));
+                        break 'ph;
+                    }
+                }
+            }
+        }
+    }
     // finite fields: tiny instantiations, every residue
     field::<2>(&mut acc, "2", &(0..2).collect::<Vec<u128>>(), true);
     field::<3>(&mut acc, "3", &(0..3).collect::<Vec<u128>>(), true);
